@@ -7,9 +7,10 @@ from engine import vsched
 
 CLIENT_CFG = {"MODE": "CLIENT", "TRANSPORT_TYPE": "TCP", "APPLICATIONS": [], "LOCAL_NODE_HOSTNAME": "client.network",
               "LOCAL_NODE_REALM": "network", "LOCAL_NODE_IP_ADDRESS": "127.0.0.1", "LOCAL_NODE_PORT": 3868,
-              "PEER_NODE_HOSTNAME": "server.network", "PEER_NODE_REALM": "network", "PEER_NODE_IP_ADDRESS": "127.0.0.1",
+              "PEER_NODE_HOSTNAME": "server.peer.example", "PEER_NODE_REALM": "peer.example", "PEER_NODE_IP_ADDRESS": "127.0.0.1",
               "PEER_NODE_PORT": 3868, "WATCHDOG_TIMEOUT": 2}
-SERVER_CFG = dict(CLIENT_CFG, MODE="SERVER", LOCAL_NODE_HOSTNAME="server.network", PEER_NODE_HOSTNAME="client.network")
+SERVER_CFG = dict(CLIENT_CFG, MODE="SERVER", LOCAL_NODE_HOSTNAME="server.network", PEER_NODE_HOSTNAME="client.peer.example")
+# (local and peer realm differ on purpose: a check of the peer's realm against the local one must not go unnoticed)
 
 STATE_NAMES = {"Closed": "Closed", "Wait-Conn-Ack": "WaitConnAck", "Wait-I-CEA": "WaitICEA", "I-Open": "Open", "R-Open": "Open",
                "Open": "Open", "Closing": "Closing", "Wait-Returns": "WaitReturns", "Wait-Conn-Ack/Elect": "WaitConnAckElect"}
@@ -171,6 +172,11 @@ class Node:
         self.sock.eof = True
         self.s.wake_idle()
 
+    def peer_reset(self):
+        """the peer aborts the connection (RST): recv() raises ConnectionResetError"""
+        self.sock.reset = True
+        self.s.wake_idle()
+
     def take_sent(self):
         """messages written to the socket since the last call (decoded)"""
         from bromelia.base import DiameterMessage
@@ -217,28 +223,33 @@ class Node:
                 break
             self.s.step(ts[0])
         host, realm = self.peer
-        if not valid and variant % 3 == 0:
+        mode = variant % 4 if not valid else -1          # 0 wrong host, 1 flag bits, 2 structure, 3 right host but the local realm
+        if mode == 3 and kind not in ("CER", "CEA", "DWR", "DWA", "DPR"):
+            mode = 0
+        if mode == 0:
             host = "intruder.network"
+        if mode == 3:
+            realm = self.local[1]
         hbh, e2e = self.ids(i)
         if kind == "CER":
             m = CER(origin_host=host, origin_realm=realm, host_ip_address="127.0.0.2")
-            if not valid and variant % 3 == 2:
+            if mode == 2:
                 m.append(ProductNameAVP("again"))
         elif kind == "CEA":
             m = CEA(origin_host=host, origin_realm=realm, host_ip_address="127.0.0.2")
-            if not valid and variant % 3 == 2:
+            if mode == 2:
                 m.pop("result_code_avp")
         elif kind == "DWR":
             m = DWR(origin_host=host, origin_realm=realm)
-            if not valid and variant % 3 == 2:
+            if mode == 2:
                 m.pop("origin_realm_avp")
         elif kind == "DWA":
             m = DWA(origin_host=host, origin_realm=realm)
-            if not valid and variant % 3 == 2:
+            if mode == 2:
                 m.pop("result_code_avp")
         elif kind == "DPR":
             m = DPR(origin_host=host, origin_realm=realm)
-            if not valid and variant % 3 == 2:
+            if mode == 2:
                 m.disconnect_cause_avp.data = DISCONNECT_CAUSE_BUSY
         elif kind == "DPA":
             m = DPA(origin_host=host, origin_realm=realm)
@@ -254,7 +265,7 @@ class Node:
             m.extend([SessionIdAVP(b"local;1;%d" % i), ResultCodeAVP(2001), OriginHostAVP(host), OriginRealmAVP(realm)])
         else:
             raise AssertionError(kind)
-        if not valid and variant % 3 == 1 and kind in ("CER", "CEA", "DWR", "DWA", "DPR"):
+        if mode == 1 and kind in ("CER", "CEA", "DWR", "DWA", "DPR"):
             m.header.flags = m.header.get_flags() | 0x40          # P bit: the flag byte is not exactly 0x80 / 0x00
         m.header.hop_by_hop = hbh
         m.header.end_to_end = e2e
